@@ -23,7 +23,8 @@ Funcs == << Fn("idb", <<P("Both", TBytes)>>, <<>>, TBytes), Fn("idi", <<P("Both"
             Fn("bb", <<P("Field", TBool)>>, <<>>, TBool), Fn("ba", <<P("Field", TBool)>>, <<>>, AB),
             Fn("ab", <<P("Field", AB)>>, <<>>, TBool), Fn("aa", <<P("Field", AB)>>, <<>>, AB),
             Fn("both", <<P("Field", TBool), P("Field", TBool)>>, <<>>, TBool),
-            Fn("concat", <<>>, <<>>, TBytes), Fn("ctxfn", <<>>, <<>>, TInt) >>
+            Fn("concat", <<>>, <<>>, TBytes), Fn("ctxfn", <<>>, <<>>, TInt),
+            Fn("plen", <<P("Both", TBytes), P("Both", TBytes)>>, <<>>, TInt) >>       \* two arguments, result type differs from both
 Sch == [fields |-> <<Fld("i", TInt), Fld("s", TBytes), Fld("b1", TBool), Fld("ai", AI), Fld("abytes", ABY), Fld("mbytes", TMap(TBytes)), Fld("vb", AB), Fld("ai2", AI)>>,
         funcs |-> Funcs, lists |-> <<TInt>>, listkinds |-> <<"set">>, nne |-> TRUE]
 I(n) == VInt(IntOfNat(n))
@@ -36,6 +37,8 @@ Ctxs == << [sch |-> 1, vals |-> <<I(1), B(<<97>>), VBool(TRUE), VArr(TInt, <<I(1
             [sch |-> 1, vals |-> <<Nil, Nil, Nil, Nil, Nil, Nil, Nil, Nil>>, lists |-> L1],
             \* mixed presence: s, ai, mbytes absent; abytes, ai2 present
             [sch |-> 1, vals |-> <<I(1), Nil, VBool(TRUE), Nil, VArr(TBytes, <<B(<<97>>)>>), Nil, Nil, VArr(TInt, <<I(5), I(6)>>)>>, lists |-> L1],
+            \* an empty array first, a non-empty one later (concat must not stop at the empty one)
+            [sch |-> 1, vals |-> <<I(2), B(<<120>>), VBool(TRUE), VArr(TInt, <<>>), VArr(TBytes, <<>>), VMap(TBytes, <<>>), VArr(TBool, <<>>), VArr(TInt, <<I(5)>>)>>, lists |-> L1],
             \* the other way round
             [sch |-> 1, vals |-> <<Nil, B(<<115>>), Nil, VArr(TInt, <<I(3)>>), Nil, VMap(TBytes, <<[k |-> <<107>>, v |-> B(<<121>>)]>>), Nil, Nil>>, lists |-> L1] >>
 Id(n) == [k |-> "id", name |-> n]
